@@ -1066,6 +1066,12 @@ static void po_line(int n, char **tv) {
     if (p) puthex(p, strlen(p)); else printf("nil");
     po_where(po, p, l + 1); po_state(po); printf("\n");
     free(b);
+  } else if (!strcmp(op, "allocbig") || !strcmp(op, "callocbig") || !strcmp(op, "strndupbig")) {
+    // requests near SIZE_MAX (decimal size_t): nothing is written by the harness; where the pointer lies is reported with size 0
+    size_t sz = (size_t) strtoull(tv[2], 0, 10);
+    iwrc rc = 0;
+    void *p = op[0] == 'a' ? iwpool_alloc(sz, po) : op[0] == 'c' ? iwpool_calloc(sz, po) : (void*) iwpool_strndup(po, "x", sz, &rc);
+    printf("p=%d", p != 0); po_where(po, p, 0); po_state(po); printf("\n");
   } else if (!strcmp(op, "strdupx")) {
     // strdupx <k> <hex>: k = 0 iwpool_strndup2, 1 iwpool_strdup, 2 iwpool_strdup2
     uint8_t *b; size_t l = unhexz(tv[3], &b);
